@@ -188,6 +188,12 @@ pub fn profile(name: &str) -> Profile {
             p.name = "dirty";
             p.flush_pct = 25;
         }
+        "exhaust2" => {
+            p.name = "exhaust2";
+        }
+        "exhaust3" => {
+            p.name = "exhaust3";
+        }
         _ => panic!("unknown profile {}", name),
     }
     p
@@ -717,7 +723,42 @@ pub fn stale_ctx(rng: &mut Rng, ctx: &mut Ctx, p: &Profile) -> Vec<Op> {
     ops
 }
 
+/// bounded-exhaustive cases: case index -> (geometry, limit, sequence of DEPTH tokens from a fixed alphabet)
+pub const EXH_TOKENS: [&str; 44] = [
+    "a", "bc", "\r", "\n", "\x1bM", "\x1b[A", "\x1b[B", "\x1b[C", "\x1b[D", "\x1b[H", "\x1b[2;2H", "\x1b[999;999H",
+    "\x1b[J", "\x1b[1J", "\x1b[K", "\x1b[1K", "\x1b[X", "\x1b[@", "\x1b[P", "\x1b[L", "\x1b[M", "\x1b[S", "\x1b[T",
+    "\x1b[1;2r", "\x1b[2;3r", "\x1b[r", "\x1b[?6h", "\x1b[?7l", "\x1b[4h", "\x1b7", "\x1b8", "\x1b[?1049h",
+    "\x1b[?1049l", "\x1b[?47h", "\x1b[?47l", "\t", "\x1bH", "\x1b[2b", "\x1b[41m", "\x1bc", "\x1b#8", "R11", "R22", "R31",
+];
+pub const EXH_GEOMS: [(usize, usize); 6] = [(1, 1), (2, 1), (1, 2), (2, 2), (3, 2), (2, 3)];
+
+pub fn exhaustive_case(index: usize, depth: usize) -> Case {
+    let g = EXH_GEOMS[index % EXH_GEOMS.len()];
+    let mut k = index / EXH_GEOMS.len();
+    let limit = if k % 2 == 0 { None } else { Some(0) };
+    k /= 2;
+    let mut ops = Vec::new();
+    for _ in 0..depth {
+        let t = EXH_TOKENS[k % EXH_TOKENS.len()];
+        k /= EXH_TOKENS.len();
+        match t {
+            "R11" => ops.push(Op::Resize(1, 1)),
+            "R22" => ops.push(Op::Resize(2, 2)),
+            "R31" => ops.push(Op::Resize(3, 1)),
+            _ => ops.push(Op::Str(t.to_string())),
+        }
+    }
+    ops.push(Op::Flush);
+    Case { cols: g.0, rows: g.1, limit, ops }
+}
+
 pub fn gen_case(rng: &mut Rng, p: &Profile) -> Case {
+    if p.name == "exhaust3" {
+        return exhaustive_case(rng.0 as usize, 3);
+    }
+    if p.name == "exhaust2" {
+        return exhaustive_case(rng.0 as usize, 2);
+    }
     let (cols, rows) = geometry(rng, p);
     let limit = limit(rng);
     let mut ctx = Ctx { cols, rows };
